@@ -3,6 +3,7 @@ import re
 import sympy
 
 from .. import facts, ev, nf, quant, shapes, cg, dims, errdom
+from ..models import narrowing_casts
 from ..facts import short, strip_cvref
 from ..frontend import NUMERIC
 
@@ -228,6 +229,10 @@ def run(chk):
                     rt = strip_cvref(F.T(f["ret"]))
                     conv = nf.Conv(positive=False)
                     got = [t for _, t in ev.flatten(E.rv(res))]
+                    nar = narrowing_casts(E.rv(res), T)
+                    if nar:
+                        chk.violated("R3", name + "::Magnitude", "the magnitude is computed through %s (%s): it has only %s precision" % (nar[0][0], ev.show(nar[0][1])[:100], nar[0][0]), short(f["loc"]))
+                        continue
                     want = sympy.sqrt(sum(conv(s) ** 2 for s in self_slots))
                     if rt not in inv or inv[rt].unit != q.unit or inv[rt].shape != "scalar":
                         chk.violated("R3", name + "::Magnitude", "returns %s, not the scalar quantity of unit type %s" % (rt, q.unit), short(f["loc"]))
